@@ -35,7 +35,7 @@ def run(ctx):
     corp = harness.corpus_files()
     rng.shuffle(corp)
     texts = [t for _, t in corp[:ctx.budget(60, 451)] if len(t) < ctx.budget(20000, 10**7)]
-    for doc in harness.gen_documents(rng, ctx.budget(150, 2500), max_depth=4):
+    for doc in harness.gen_documents(rng, ctx.budget(150, 2500), max_depth=4, contract=True):
         texts.append(docs.render(doc, harness.random_layout(rng))[0])
     cases = []
     for i, t in enumerate(texts):
